@@ -47,7 +47,7 @@ ASSUMPTIONS = [
     "ordering among concurrently running enters/exits and the wrapper type of a surfaced error are unspecified",
     "body 'cancelled' = cancellation requested by the harness and delivered at the body's next suspension point",
 ]
-MINIMUMS = {"monitor:exit-once": 3000, "monitor:cleanup-surfaces": 1000, "monitor:enter-error-surfaces": 200, "cases_with_exit_error": 1000, "cases_with_enter_error": 300, "body_cancelled": 200, "cancelled_while_entering_with_some_entered": 50}
+MINIMUMS = {"monitor:exit-once": 3000, "monitor:cleanup-surfaces": 1000, "monitor:enter-error-surfaces": 200, "cases_with_exit_error": 1000, "cases_with_enter_error": 300, "body_cancelled": 200, "cancelled_while_entering_with_some_entered": 50, "cancellations_injected_around_scope_entry_and_exit": 595, "second_cancellations_injected": 396}
 JOBS = {"quick": 4, "thorough": 16}
 OPTIMIZED_SHARDS = {"quick": 2, "thorough": 8}  # the same cases once more under `python -O`
 LEVEL_TEXT = (
